@@ -45,16 +45,17 @@ def build(tier, seed):
     return {
         'cases': cases,
         'rule': 'prefix tree of all words over the alphabet up to the length bound (pool case = sub-tree); crossings on every '
-                'word (also constant / all-zero), switched peaks on every non-constant word; x keep_adj_zeros {T,F} x tol '
+                'word (also constant / all-zero), switched peaks on every word (constant words and words of length 1: the clauses that do not need turning points); x keep_adj_zeros {T,F} x tol '
                 '{0} + %s x input {float64,int64,list} (+ int16 x100, amplitudes 1e-9 / 1e-170 / 1e300, signal objects reused after an '
                 'edit for short words); stretched family: every word of the stated length with each sample held for k steps, float64, '
                 'tol {0,0.5,1.5}; non-trivial = non-constant word' % (list(TOLS),),
         'bounds': bounds,
         'required_classes': ['adjacent-zeros', 'leading-zero', 'sign-change-without-zero', 'first-excursion-starts-at-0',
                              'first-excursion-max-at-0', 'excursion-3-levels', 'tie-in-excursion', 'zero-valued-reported',
-                             'tol-removes-something', 'same-array-sequence', 'stretched-long-record'],
+                             'tol-removes-something', 'same-array-sequence', 'stretched-long-record', 'constant-word-switched',
+                             'length-1-word'],
         'assumptions': ['index-valued outputs are compared exactly', 'reference: scanning loops in mcheck/refs/peaks_ref.py',
-                        'switched peaks of constant series are outside the statement (get_peak_array_indices needs a non-constant series)'],
+                        'switched peaks of constant series: turning points are not defined for them (C11), so only ascending order, range, one index per excursion, non-emptiness and the tolerance subsequence are demanded'],
     }
 
 
@@ -109,7 +110,48 @@ def check_word(r, w, fam, containers=('f', 'i', 'l'), tols=None, label=None):
             r.expect_ints('crossings.exact', dict(sub0, input='signal-object'), got, ref.zero_crossings(w, False))
     # ---- switched peaks: non-constant series
     if len(set(w)) == 1:
-        r.disabled['constant-word(switched)'] += 1
+        # constant series ("for every series"): no turning points are defined for it (C11 speaks of non-constant series), so
+        # only what the statement says without them: strictly ascending indices inside the series, exactly one of them in the
+        # single excursion of a non-zero constant, never an empty result (the global absolute maximum is included), and the
+        # tolerance results are subsequences of it
+        r.cls('constant-word-switched')
+        base = None
+        for c in containers:
+            arr = np.array(w, dtype=float) if c == 'f' else (np.array(w, dtype=np.int64) if c == 'i' else list(w))
+            sub = dict(sub0, input=c)
+            ok, got = r.call('switched', sub, pc.get_switched_peak_array_indices, arr)
+            if not ok:
+                continue
+            try:
+                g = as_ints(got)
+            except Exception as e:
+                r.fail('switched', sub, 'malformed result: %s' % e, observed=got)
+                continue
+            r.n_cmp += 1
+            if c == 'f':
+                base = g
+            if any(b <= a for a, b in zip(g, g[1:])):
+                r.fail('switched.ascending', sub, 'indices of a constant series are not strictly ascending', observed=g)
+            elif any(i < 0 or i >= n for i in g):
+                r.fail('switched.range', sub, 'index outside the series', observed=g)
+            elif not g:
+                r.fail('switched.global-max', sub, 'no index reported for a constant series (the global absolute maximum is not included)',
+                       observed=g)
+            elif w[0] != 0 and len(g) != 1:
+                r.fail('switched.one-per-excursion', sub, 'the single excursion of a non-zero constant series contains %d reported '
+                       'indices' % len(g), observed=g)
+        if base is not None:
+            for tol in tols:
+                sub = dict(sub0, tol=tol)
+                ok, got = r.call('switched.tol', sub, pc.get_switched_peak_array_indices, np.array(w, dtype=float), tol=tol)
+                if ok:
+                    try:
+                        g = as_ints(got)
+                        it = iter(base)
+                        r.expect('switched.tol-subsequence', sub, all(any(a == b for b in it) for a in g),
+                                 'not a subsequence of the tol=0 result', observed=g, expected=base)
+                    except Exception as e:
+                        r.fail('switched.tol-subsequence', sub, 'malformed result: %s' % e, observed=got)
         return
     r.nontrivial += 1
     exs = ref.excursions(w)
@@ -290,8 +332,9 @@ def run_case(case):
     if len(root) >= 2:
         check_word(r, list(root), fam)
         check_sequence(r, list(root), fam)
-    else:
-        r.disabled['length-1-word'] += 1
+    elif len(root) == 1:
+        r.cls('length-1-word')
+        check_word(r, list(root), fam)
     for n in range(len(root) + 1, lmax + 1):
         for ext in itertools.product(alpha, repeat=n - len(root)):
             w = list(root + ext)
